@@ -244,6 +244,20 @@ func H_SELF_files_and_q() {
 		verifObserve("bufio", string(l1), p1, e1 == nil, l2, e2 == nil, string(rest), e3 == nil, e4 == io.EOF)
 		g.Close()
 	}
+	// Stat + io.CopyN: a regular file whose size is the length of its content
+	if g, gerr := os.Open(path); gerr == nil {
+		fi, serr := g.Stat()
+		var sb strings.Builder
+		var n int64
+		var cerr error
+		if serr == nil {
+			sb.Grow(int(fi.Size()))
+			n, cerr = io.CopyN(&sb, g, fi.Size())
+		}
+		fi2, serr2 := os.Stat(path)
+		verifObserve("stat", serr == nil, n, cerr == nil, sb.String(), serr2 == nil && fi2.Size() == n && fi2.Name() == "verif_self_file.txt")
+		g.Close()
+	}
 	verifReach("end")
 }
 
